@@ -627,14 +627,33 @@ func TestVerifC07(t *testing.T) {
 			}
 		}
 	}
+	for _, kind := range []string{"streamable", "sse"} {
+		for _, d := range []string{"404-bare", "200-jsonrpc-mnf", "400-jsonrpc-code-32602"} {
+			for _, r := range []string{"", "2025-06-18", "2026-07-28"} {
+				idx, mine := httpPeers.Next()
+				if !mine {
+					continue
+				}
+				desc := fmt.Sprintf("%s server answering initialize with 2026-07-28, discover answered %s, requested=%q", kind, d, r)
+				run(func() (string, string, string) { return c07RunHTTPPeerX(kind, d, r, "2026-07-28") }, desc, idx, httpPeers)
+			}
+		}
+	}
 	env.Finish(res)
 }
 
 // c07RunHTTPPeer: a scripted server that implements the legacy handshake only and refuses
 // server/discover at the HTTP level (or with a JSON-RPC method-not-found).
 func c07RunHTTPPeer(kind, discover, requested string) (obs, sig, msg string) {
+	return c07RunHTTPPeerX(kind, discover, requested, "")
+}
+
+// initAnswer: "" - the server answers initialize with a legacy version; otherwise with this version whatever
+// was asked (a foreign or newer server that names 2026-07-28 in the legacy handshake): over HTTP+SSE and on a
+// stateful streamable endpoint that version is never the outcome - Connect fails, or settles on another one
+func c07RunHTTPPeerX(kind, discover, requested, initAnswer string) (obs, sig, msg string) {
 	fail := func(s, format string, a ...any) (string, string, string) {
-		return "", "c07 http-peer " + kind + " " + s, fmt.Sprintf(format, a...) + fmt.Sprintf(" [legacy %s server, discover answered %s, requested=%q]", kind, discover, requested)
+		return "", "c07 http-peer " + kind + " " + s, fmt.Sprintf(format, a...) + fmt.Sprintf(" [legacy %s server, discover answered %s, requested=%q, initialize answered %q]", kind, discover, requested, initAnswer)
 	}
 	ctx, cancel := context.WithTimeout(context.Background(), time.Minute)
 	defer cancel()
@@ -656,6 +675,9 @@ func c07RunHTTPPeer(kind, discover, requested string) (obs, sig, msg string) {
 			v := version
 			if !slices.Contains(c07Legacy, v) {
 				v = "2025-06-18"
+			}
+			if initAnswer != "" {
+				v = initAnswer
 			}
 			return `{"jsonrpc":"2.0","id":` + id + `,"result":{"protocolVersion":"` + v + `","capabilities":{"tools":{}},"serverInfo":{"name":"legacy","version":"1"}}}`, true
 		case "tools/list":
@@ -740,10 +762,19 @@ func c07RunHTTPPeer(kind, discover, requested string) (obs, sig, msg string) {
 		if ctx.Err() != nil {
 			return fail("connect-hangs", "Connect did not return: %v", err)
 		}
+		if initAnswer != "" && slices.Contains(seen, "initialize") {
+			return kind + " refused the initialize answer", "", ""
+		}
 		return fail("no-fallback-after-http-refusal "+discover, "discovery is unavailable on this server but Connect did not fall back to the initialize handshake (methods sent: %v): %v", seen, err)
 	}
 	defer cs.Close()
 	got := cs.InitializeResult().ProtocolVersion
+	if initAnswer != "" && got >= "2026-07-28" {
+		return fail("negotiated-2026-07-28-on-a-transport-without-binding", "negotiated %q through the legacy handshake over a transport that has no binding for it", got)
+	}
+	if initAnswer != "" {
+		return kind + " settled on " + got, "", ""
+	}
 	if !slices.Contains(c07Legacy, got) {
 		return fail("negotiated-not-offered-by-server", "negotiated %q with a server that only implements the legacy handshake", got)
 	}
